@@ -296,14 +296,48 @@ func (g *Gen) leaf(vars bool) *GItem {
 	}
 	n := g.size(g.MaxVals)
 	it := &GItem{F: f}
+	// one item in eight is uniform: all its values come from a palette of one or two values (all zero, zero and
+	// negative zero, all maximal ...) - what a fast path for "trivial" arrays would look at
+	var palette []interface{}
+	if g.pick(8) == 0 {
+		palette = append(palette, g.special(f))
+		if g.pick(2) == 0 {
+			palette = append(palette, g.special(f))
+		}
+	}
 	for i := 0; i < n; i++ {
-		if vars && g.pick(4) == 0 {
+		if vars && g.pick(4) == 0 && palette == nil {
 			it.Vals = append(it.Vals, g.newVar())
+			continue
+		}
+		if palette != nil {
+			it.Vals = append(it.Vals, palette[g.pick(len(palette))])
 			continue
 		}
 		it.Vals = append(it.Vals, g.value(f))
 	}
 	return it
+}
+
+// special returns one of the few values of a format that code likes to treat specially.
+func (g *Gen) special(f string) interface{} {
+	switch f {
+	case "B":
+		return []int{0, 255, 1}[g.pick(3)]
+	case "BOOLEAN":
+		return g.pick(2) == 1
+	}
+	w := fmtSize(f)
+	switch f[0] {
+	case 'I':
+		return []int64{0, -1, 1, -1 << (uint(w)*8 - 1), 1<<(uint(w)*8-1) - 1}[g.pick(5)]
+	case 'U':
+		return []uint64{0, 1, 1<<(uint(w)*8-1)<<1 - 1}[g.pick(3)]
+	}
+	if w == 4 {
+		return []float64{0, math.Copysign(0, -1), 1, float64(math.MaxFloat32), -float64(math.MaxFloat32), float64(math.SmallestNonzeroFloat32)}[g.pick(6)]
+	}
+	return []float64{0, math.Copysign(0, -1), 1, math.MaxFloat64, -math.MaxFloat64, math.SmallestNonzeroFloat64}[g.pick(6)]
 }
 
 // value returns a random in-domain Go value for an array format
